@@ -1,4 +1,5 @@
 import GB.C13.Proofs
+import GB.C09.Props
 /-
   C13 — streamed responses are framed one message per record in the transport's format.
   Property theorems only; lemmas live in Proofs.lean, the model in Model.lean, the client-side
@@ -294,3 +295,53 @@ example :
     (GB.LTS.run (step cfg) init
       [.clientSend f1, .clientSend f2, .recvCall, .read, .handoff, .finishOnMessage, .read, .recvCall, .handoff]).map
         (fun s => (s.delivered, s.result)) = some ([f1], some .wrongType) := by decide
+
+
+/-! ## ===== corollaries from the C09 text layer (added by the C09 slice; nothing above is changed) =====
+
+  `C13_lines` and `C13_sse` assume that a record contains no raw line feed (and, for SSE, no raw carriage return
+  and no leading space). For bodies that are compact JSON — `GB.C09.renderCompact j`, the model of what
+  `json.Marshal` writes for a field body (tied to the real `Marshal` output on every C09 `enc` case) — the
+  assumption is a theorem (`C09_render_no_raw_newline`, `C09_render_head`), so record splitting is lossless
+  outright. `numsValid` (number literals are JSON numbers) holds for everything the field encoder writes
+  (`C09_encode_numbers_valid`). Whole-message bodies written by protojson stay under the original assumption. -/
+
+/-- Newline-delimited JSON is lossless for compact JSON bodies: no assumption on the payloads is left. -/
+theorem C13_json_lines_lossless (js : List GB.C09.J) (hv : ∀ j ∈ js, GB.C09.numsValid j = true) :
+    splitLines (streamBody false (js.map GB.C09.renderCompact)) = js.map GB.C09.renderCompact := by
+  apply C13_lines
+  intro b hb
+  obtain ⟨j, hj, e⟩ := List.mem_map.mp hb
+  subst e
+  exact (C09_render_no_raw_newline j (hv j hj)).1
+
+/-- Server-Sent Events are lossless for compact JSON bodies. -/
+theorem C13_sse_lossless (js : List GB.C09.J) (hv : ∀ j ∈ js, GB.C09.numsValid j = true) :
+    parseSSE (streamBody true (js.map GB.C09.renderCompact)) = js.map GB.C09.renderCompact := by
+  apply C13_sse
+  intro b hb
+  obtain ⟨j, hj, e⟩ := List.mem_map.mp hb
+  subst e
+  have hn := C09_render_no_raw_newline j (hv j hj)
+  obtain ⟨c, t, e, hc, _⟩ := C09_render_head j (hv j hj)
+  refine ⟨hn.1, hn.2, ?_⟩
+  rw [e]
+  intro h
+  simp only [List.head?_cons, Option.some.injEq] at h
+  exact hc h
+
+/-- …in particular for every body the field encoder produces (float formatter writing JSON numbers). -/
+theorem C13_json_lines_lossless_encoded (ops : GB.C09.FloatOps) (hf : ∀ b bits, GB.C09.validNum (ops.fmt b bits) = true)
+    (o : GB.C09.Opts) (k : GB.C09.Kind) (fs : List GB.C09.Field) (js : List GB.C09.J)
+    (h : fs.map (GB.C09.encode ops o k) = js.map GB.C09.Res.ok) :
+    splitLines (streamBody false (js.map GB.C09.renderCompact)) = js.map GB.C09.renderCompact ∧
+    parseSSE (streamBody true (js.map GB.C09.renderCompact)) = js.map GB.C09.renderCompact := by
+  have hv : ∀ j ∈ js, GB.C09.numsValid j = true := by
+    intro j hj
+    have hm : GB.C09.Res.ok j ∈ fs.map (GB.C09.encode ops o k) := by rw [h]; exact List.mem_map.mpr ⟨j, hj, rfl⟩
+    obtain ⟨f, _, hf'⟩ := List.mem_map.mp hm
+    exact C09_encode_numbers_valid ops hf o k f j hf'
+  exact ⟨C13_json_lines_lossless js hv, C13_sse_lossless js hv⟩
+
+example : splitLines (streamBody false ([GB.C09.J.arr [.str [10], .num [49]], .obj []].map GB.C09.renderCompact))
+    = [[91, 34, 92, 110, 34, 44, 49, 93], [123, 125]] := by decide
